@@ -16,7 +16,13 @@ __all__ = [
 ]
 
 
+def _double(x):
+    """Promote a Quantity to double precision (before any unit conversion)."""
+    return u.Quantity(x, dtype=np.float64) if isinstance(x, u.Quantity) else x
+
+
 def _transfer_function(coeff, N, dt, center_freq, ref_freq):
+    center_freq, ref_freq = _double(center_freq), _double(ref_freq)
     f = center_freq.to(u.Hz) + np.fft.fftfreq(N, dt).to(u.Hz)
     phase = coeff * f * u.cycle * (1 / ref_freq - 1 / f) ** 2
     tf = np.exp(-1j * phase.to_value(u.rad))
@@ -32,6 +38,7 @@ class DispersionMeasure(u.SpecificTypeQuantity):
     def time_delay(self, f, ref_freq):
         """Time delay of frequencies relative to reference frequency."""
         coeff = self.dispersion_constant * self
+        f, ref_freq = _double(f), _double(ref_freq)
         delay = coeff * (1 / f ** 2 - 1 / ref_freq ** 2)
         return delay.to(u.s)
 
